@@ -244,7 +244,9 @@ func marker(r *rand.Rand, kind string) string {
 	return kind + itoa(markerN)
 }
 
-var helpWords = []string{"100%", "%d", "lorem", "ipsum", "dolor", "sit", "amet", "consectetur", "adipiscing", "elit", "naïve", "café", "世界", "Привет", "a", "I/O", "supercalifragilisticexpialidocious", "x-y", "e.g.", "€100", "😀"}
+var helpWords = []string{"100%", "%d", "lorem", "ipsum", "dolor", "sit", "amet", "consectetur", "adipiscing", "elit", "naïve", "café", "世界", "Привет", "a", "I/O", "supercalifragilisticexpialidocious", "x-y", "e.g.", "€100", "😀",
+	// white space other than the blank: the text is wrapped at blanks only, but trimmed of any white space
+	"non\u00a0breaking", "全角\u3000空白", "x\u00a0"}
 
 func helpDesc(r *rand.Rand, mk string) string {
 	n := r.Intn(14)
@@ -299,6 +301,20 @@ func decorateForHelp(r *rand.Rand, t *Tree) {
 			}
 			if chance(r, 0.05) && o.Kind == "scalar" && o.VType == "string" && len(o.Choices) == 0 && !o.Validator {
 				o.Init = txts("preset" + itoa(markerN))
+			}
+			// values the program stored beforehand are shown as the default when there is no default tag: contents of
+			// length one, several elements, the zero value (not shown)
+			if len(o.Choices) == 0 && !o.Validator && chance(r, 0.15) {
+				switch {
+				case o.Kind == "scalar" && o.VType == "string":
+					o.Init = txts(pick(r, []string{",", "p", "é", "x y"}))
+				case o.Kind == "scalar" && o.VType == "int":
+					o.Init = txts(pick(r, []string{"41", "0", "-7", "5"}))
+				case o.Kind == "slice" && o.VType == "string":
+					o.Init = txts([][]string{{"blue"}, {"a", "b"}, {","}, {"x y", "z", "w"}}[r.Intn(4)]...)
+				case o.Kind == "slice" && o.VType == "int":
+					o.Init = txts([][]string{{"7"}, {"1", "2"}, {"0"}}[r.Intn(3)]...)
+				}
 			}
 		}
 		for _, sg := range g.Groups {
